@@ -158,6 +158,23 @@ def curated_inputs(tag):
         cases.append({"deep": "$t(a)" * min(n, 2000), "a": "x"})
     for n in (10, 100, 120, 200):
         cases.append({"deep": adversarial.deep_obj(n)})
+    # every `inherits` table over four locales (chains, forks, cycles, chains leading into cycles, self-reference), with keys that
+    # only the default locale / only one other locale defines: loading and code generation must terminate for all of them
+    import itertools
+    locs = ["en", "fr", "fr-BE", "fr-CA"]
+    k = len(cases)
+    for combo in itertools.product([None] + locs, repeat=3):
+        inh = {l: t for l, t in zip(locs[1:], combo) if t is not None}
+        d = os.path.join(root, "inh%d" % k)
+        k += 1
+        os.makedirs(os.path.join(d, "locales"))
+        with open(os.path.join(d, "Cargo.toml"), "w") as f:
+            f.write(gen.config_toml({"default": "en", "locales": list(locs), "inherits": inh}))
+        for l in locs:
+            content = {"only_en": "x {{ v }}", "grp": {"a": "y"}, "fr_only": "en"} if l == "en" else ({"fr_only": "fr", "grp": None} if l == "fr" else {})
+            with open(os.path.join(d, "locales", l + ".json"), "w") as f:
+                json.dump(content, f)
+        inputs.append((d, {"kind": "curated", "fmt": "json", "case": "inherits=%s" % json.dumps(inh)}))
     for i, c in enumerate(cases):
         d = os.path.join(root, str(i))
         os.makedirs(os.path.join(d, "locales"))
